@@ -7,6 +7,9 @@ from vlib import hist
 from vlib.ctx import proof_gate
 from vlib.term import C, opt
 
+MAPPINGS = ("map", "ordered", "proxy", "userdict", "chainmap")     # argument classes with keys(): dict(pairs) semantics
+ITERABLES = ("pairs", "gen", "tuple")                                # iterables of pairs, in order
+
 HEADER = ("From Coq Require Import ZArith List.\n"
           "From TV Require Import Common.Harness Common.LMap C06.Model C06.Law C06.Corr.")
 CASE_T = "C06.Corr.case"
@@ -70,7 +73,7 @@ def op_term(op):
     if k == "DelItem":
         return C(k, op[1])
     if k in ("Update", "Ior", "Ctor"):
-        return C(k, op[1] == "map", amap(op[2]))
+        return C(k, op[1] in MAPPINGS, amap(op[2]))
     if k == "SetDefault":
         return C(k, op[1], op[2])
     if k == "SetDefault1":
@@ -221,8 +224,13 @@ def gen_case(rnd, ctx, maxlen):
             op = [k, key, pick_val(key)]
         elif k == "DelItem":
             op = [k, single_key()]
-        elif k in ("Update", "Ior"):
-            op = [k, rnd.choice(["map", "pairs", "pairs"]), pick_pairs()]
+        elif k == "Update":
+            op = [k, rnd.choice(MAPPINGS + ITERABLES + ("map", "pairs", "pairs")), pick_pairs()]
+            ctx.count("update-argument:" + op[1])
+        elif k == "Ior":
+            # dict.__ior__ itself accepts any mapping or iterable of pairs
+            op = [k, rnd.choice(MAPPINGS + ITERABLES + ("map", "pairs", "pairs")), pick_pairs()]
+            ctx.count("update-argument:" + op[1])
         elif k == "Ctor":
             op = [k, rnd.choice(["map", "pairs"]) if target == "plain" else "map", pick_pairs()]
         elif k == "SetDefault":
@@ -304,7 +312,7 @@ def grid(ctx, stride, offset):
     pair_lists = [[], [[1, 10]], [[1, 12]], [[3, 12]], [[101, 12]], [[1, 12], [101, 10]], [[3, 10], [103, 12]],
                   [[3, 10], [3, 12]], [[2, 12], [200, 10]], [[3, 200], [1, 12]], [[1, 10], [2, 11]], [[103, 110], [1, 12], [3, 10]]]
     for ps in pair_lists:
-        for kind in ("map", "pairs"):
+        for kind in ("map", "pairs", "proxy", "userdict", "chainmap", "ordered", "gen"):
             ops += [["Update", kind, ps], ["Ior", kind, ps]]
         ops += [["Ctor", "map", ps]]
     cs, i = [], 0
